@@ -745,7 +745,7 @@ func one(js []byte) {
 	if o.absence {
 		// absence-type observation (a call did not return in time): only believed if it repeats with a long watchdog;
 		// once the same signature has been confirmed three times and 200 re-executions were spent, it is taken as is
-		if atomic.LoadInt64(&nAbsenceRetry) < 200 || !allConfirmed(blockedSigs(&o)) {
+		if atomic.LoadInt64(&nAbsenceRetry) < 200 || (!o.tainted && !allConfirmed(blockedSigs(&o))) {
 			atomic.AddInt64(&nAbsenceRetry, 1)
 			o2 := run(&t, *slowdog)
 			if !o2.absence {
